@@ -2,6 +2,7 @@ package main
 
 import (
 	"fmt"
+	"os"
 	"strconv"
 	"strings"
 )
@@ -62,7 +63,41 @@ type Term struct {
 	a, b int    // extract hi/lo; ext amount
 	args []*Term
 	id   int
+	kz   uint64 // bits known to be 0 (w <= 64)
+	ko   uint64 // bits known to be 1
+	vs     []*Term // variables occurring in the term (computed lazily)
+	vsDone bool
 }
+
+// varsOf returns the distinct variables of t (memoised).
+func varsOf(t *Term) []*Term {
+	if t.vsDone {
+		return t.vs
+	}
+	switch {
+	case t.op == opVar:
+		t.vs = []*Term{t}
+	case len(t.args) == 1:
+		t.vs = varsOf(t.args[0])
+	case len(t.args) > 1:
+		seen := map[*Term]bool{}
+		var out []*Term
+		for _, a := range t.args {
+			for _, v := range varsOf(a) {
+				if !seen[v] {
+					seen[v] = true
+					out = append(out, v)
+				}
+			}
+		}
+		t.vs = out
+	}
+	t.vsDone = true
+	return t.vs
+}
+
+func (t *Term) umax() uint64 { return ^t.kz & mask(t.w) }
+func (t *Term) umin() uint64 { return t.ko }
 
 type termKey struct {
 	op      Op
@@ -78,10 +113,53 @@ type TermCtx struct {
 	cnt  int
 	tt   *Term
 	ff   *Term
+	// simplifier self-check (VERIF_CHECK_SIMPLIFY): pairs (naive, simplified)
+	// whose equivalence the solver must prove
+	checkSimp bool
+	pending   [][2]*Term
+	seenPair  map[[2]int]bool
+}
+
+func (c *TermCtx) note(naive, simp *Term) {
+	if naive == simp {
+		return
+	}
+	k := [2]int{naive.id, simp.id}
+	if c.seenPair[k] {
+		return
+	}
+	c.seenPair[k] = true
+	c.pending = append(c.pending, [2]*Term{naive, simp})
+}
+
+// Bin, Cmp and Extract simplify; with checkSimp on, every rewrite is recorded
+// against the unsimplified term so the solver can validate the simplifier.
+func (c *TermCtx) Bin(op Op, x, y *Term) *Term {
+	r := c.bin0(op, x, y)
+	if c.checkSimp {
+		c.note(c.intern(&Term{op: op, args: []*Term{x, y}, w: x.w, name: "raw"}), r)
+	}
+	return r
+}
+
+func (c *TermCtx) Cmp(op Op, x, y *Term) *Term {
+	r := c.cmp0(op, x, y)
+	if c.checkSimp {
+		c.note(c.intern(&Term{op: op, args: []*Term{x, y}, name: "raw"}), r)
+	}
+	return r
+}
+
+func (c *TermCtx) Extract(x *Term, hi, lo int) *Term {
+	r := c.extract0(x, hi, lo)
+	if c.checkSimp && hi-lo+1 != x.w {
+		c.note(c.intern(&Term{op: opExtract, args: []*Term{x}, w: hi - lo + 1, a: hi, b: lo, name: "raw"}), r)
+	}
+	return r
 }
 
 func NewTermCtx() *TermCtx {
-	c := &TermCtx{tab: map[termKey]*Term{}}
+	c := &TermCtx{tab: map[termKey]*Term{}, seenPair: map[[2]int]bool{}, checkSimp: checkSimplify}
 	c.tt = c.intern(&Term{op: opTrue})
 	c.ff = c.intern(&Term{op: opFalse})
 	return c
@@ -111,9 +189,108 @@ func (c *TermCtx) intern(t *Term) *Term {
 	}
 	c.cnt++
 	t.id = c.cnt
+	setKnown(t)
 	c.tab[k] = t
 	return t
 }
+
+func bitLen(v uint64) int {
+	n := 0
+	for v != 0 {
+		n++
+		v >>= 1
+	}
+	return n
+}
+
+// setKnown computes the known-bits abstraction of a new term.
+func setKnown(t *Term) {
+	if t.w == 0 || t.w > 64 {
+		return
+	}
+	m := mask(t.w)
+	switch t.op {
+	case opConst:
+		t.ko, t.kz = t.val, ^t.val&m
+	case opBAnd:
+		a, b := t.args[0], t.args[1]
+		t.ko, t.kz = a.ko&b.ko, (a.kz|b.kz)&m
+	case opBOr:
+		a, b := t.args[0], t.args[1]
+		t.ko, t.kz = a.ko|b.ko, a.kz&b.kz
+	case opBXor:
+		a, b := t.args[0], t.args[1]
+		t.ko, t.kz = (a.ko&b.kz)|(a.kz&b.ko), (a.kz&b.kz)|(a.ko&b.ko)
+	case opShl:
+		a, b := t.args[0], t.args[1]
+		if b.op == opConst {
+			if b.val >= uint64(t.w) {
+				t.kz = m
+			} else {
+				k := uint(b.val)
+				t.ko, t.kz = (a.ko<<k)&m, ((a.kz<<k)|mask(int(k)))&m
+			}
+		}
+	case opLshr:
+		a, b := t.args[0], t.args[1]
+		if b.op == opConst {
+			if b.val >= uint64(t.w) {
+				t.kz = m
+			} else {
+				k := uint(b.val)
+				t.ko, t.kz = a.ko>>k, ((a.kz>>k)|^(m>>k))&m
+			}
+		} else {
+			// shifting right never sets bits above the operand's highest possible bit
+			t.kz = ^mask(bitLen(a.umax())) & m
+		}
+	case opZext:
+		a := t.args[0]
+		t.ko, t.kz = a.ko, (a.kz|^mask(a.w))&m
+	case opExtract:
+		a := t.args[0]
+		if a.w <= 64 {
+			t.ko, t.kz = (a.ko>>uint(t.b))&m, (a.kz>>uint(t.b))&m
+		}
+	case opConcat:
+		a, b := t.args[0], t.args[1]
+		t.ko, t.kz = (a.ko<<uint(b.w))|b.ko, ((a.kz<<uint(b.w))|b.kz)&m
+	case opIte:
+		a, b := t.args[1], t.args[2]
+		t.ko, t.kz = a.ko&b.ko, a.kz&b.kz
+	case opAdd:
+		a, b := t.args[0], t.args[1]
+		ma, mb := a.umax(), b.umax()
+		if sum := ma + mb; sum >= ma && (t.w == 64 || sum <= m) { // no wrap-around possible
+			t.kz = ^mask(bitLen(sum)) & m
+		}
+		// low bits: trailing known zeros of both operands stay zero
+		tz := 0
+		for tz < t.w && (a.kz>>uint(tz))&1 == 1 && (b.kz>>uint(tz))&1 == 1 {
+			tz++
+		}
+		t.kz |= mask(tz)
+	case opUdiv:
+		t.kz = ^mask(bitLen(t.args[0].umax())) & m
+	case opUrem:
+		b := t.args[1]
+		if b.umin() > 0 {
+			t.kz = ^mask(bitLen(b.umax())) & m
+		}
+	}
+}
+
+// addNoWrap reports whether x+y cannot wrap around in w bits.
+func addNoWrap(x, y *Term) bool {
+	if x.w > 64 {
+		return false
+	}
+	mx, my := x.umax(), y.umax()
+	sum := mx + my
+	return sum >= mx && sum <= mask(x.w)
+}
+
+var checkSimplify = os.Getenv("VERIF_CHECK_SIMPLIFY") != ""
 
 func mask(w int) uint64 {
 	if w >= 64 {
@@ -216,7 +393,7 @@ func foldBin(op Op, w int, a, b uint64) (uint64, bool) {
 	return r & mask(w), true
 }
 
-func (c *TermCtx) Bin(op Op, x, y *Term) *Term {
+func (c *TermCtx) bin0(op Op, x, y *Term) *Term {
 	w := x.w
 	if x.w != y.w {
 		panic(fmt.Sprintf("Bin %s width mismatch %d %d", opName[op], x.w, y.w))
@@ -256,10 +433,44 @@ func (c *TermCtx) Bin(op Op, x, y *Term) *Term {
 			return y
 		}
 	}
-	if op == opSub && x == y {
-		return c.BV(w, 0)
+	if op == opSub {
+		if x == y {
+			return c.BV(w, 0)
+		}
+		// (a+b)-a = b, (a+b)-b = a  (modular arithmetic: always valid)
+		if x.op == opAdd {
+			if x.args[0] == y {
+				return x.args[1]
+			}
+			if x.args[1] == y {
+				return x.args[0]
+			}
+		}
 	}
-	return c.intern(&Term{op: op, args: []*Term{x, y}, w: w})
+	if w <= 64 {
+		switch op {
+		case opBAnd:
+			// and with a constant that covers every possibly-set bit is the identity
+			if y.op == opConst && x.umax()&^y.val == 0 {
+				return x
+			}
+			if x.op == opConst && y.umax()&^x.val == 0 {
+				return y
+			}
+		case opBOr:
+			if y.op == opConst && y.val&^x.ko == 0 {
+				return x
+			}
+			if x.op == opConst && x.val&^y.ko == 0 {
+				return y
+			}
+		}
+	}
+	t := c.intern(&Term{op: op, args: []*Term{x, y}, w: w})
+	if w <= 64 && t.op != opConst && t.ko|t.kz == mask(w) {
+		return c.BV(w, t.ko) // every bit is known
+	}
+	return t
 }
 
 func cmpConst(op Op, w int, a, b uint64) bool {
@@ -279,7 +490,7 @@ func cmpConst(op Op, w int, a, b uint64) bool {
 }
 
 // Cmp builds =, bvult, bvule, bvslt, bvsle (Bool result).
-func (c *TermCtx) Cmp(op Op, x, y *Term) *Term {
+func (c *TermCtx) cmp0(op Op, x, y *Term) *Term {
 	if x.w != y.w {
 		panic(fmt.Sprintf("Cmp %s width mismatch %d %d", opName[op], x.w, y.w))
 	}
@@ -310,15 +521,58 @@ func (c *TermCtx) Cmp(op Op, x, y *Term) *Term {
 	if x == y {
 		return c.Bool(op == opEq || op == opUle || op == opSle)
 	}
+	// a <= b is represented as not (b < a) so that both polarities of one
+	// comparison share a literal
+	if op == opUle {
+		return c.Not(c.Cmp(opUlt, y, x))
+	}
+	if op == opSle {
+		return c.Not(c.Cmp(opSlt, y, x))
+	}
 	if op == opEq && x.id > y.id {
 		x, y = y, x
 	}
-	// unsigned range trivia
-	if op == opUlt && y.op == opConst && y.val == 0 {
-		return c.ff
-	}
-	if op == opUle && x.op == opConst && x.val == 0 {
-		return c.tt
+	if x.w <= 64 {
+		switch op {
+		case opEq:
+			if x.ko&y.kz != 0 || x.kz&y.ko != 0 {
+				return c.ff // some bit is known to differ
+			}
+		case opSlt:
+			sb := uint64(1) << uint(x.w-1)
+			if x.kz&sb != 0 && y.kz&sb != 0 {
+				return c.Cmp(opUlt, x, y) // both non-negative
+			}
+		case opUlt:
+			if x.umax() < y.umin() {
+				return c.tt
+			}
+			if x.umin() >= y.umax() {
+				return c.ff
+			}
+			// (a+b) < a is "the addition wrapped"
+			if x.op == opAdd && (x.args[0] == y || x.args[1] == y) && addNoWrap(x.args[0], x.args[1]) {
+				return c.ff
+			}
+			// a+b < a+d  <=>  b < d when neither addition can wrap
+			if x.op == opAdd && y.op == opAdd && addNoWrap(x.args[0], x.args[1]) && addNoWrap(y.args[0], y.args[1]) {
+				for i := 0; i < 2; i++ {
+					for j := 0; j < 2; j++ {
+						if x.args[i] == y.args[j] {
+							return c.Cmp(opUlt, x.args[1-i], y.args[1-j])
+						}
+					}
+				}
+			}
+			// a < a+d with no wrap  <=>  d != 0
+			if y.op == opAdd && (y.args[0] == x || y.args[1] == x) && addNoWrap(y.args[0], y.args[1]) {
+				o := y.args[0]
+				if o == x {
+					o = y.args[1]
+				}
+				return c.Not(c.Cmp(opEq, o, c.BV(o.w, 0)))
+			}
+		}
 	}
 	// zext(x) compared with a constant that does not fit
 	if x.op == opZext && y.op == opConst && x.args[0].w < 64 {
@@ -407,7 +661,7 @@ func (c *TermCtx) Ite(cond, x, y *Term) *Term {
 	return c.intern(&Term{op: opIte, args: []*Term{cond, x, y}, w: x.w})
 }
 
-func (c *TermCtx) Extract(x *Term, hi, lo int) *Term {
+func (c *TermCtx) extract0(x *Term, hi, lo int) *Term {
 	w := hi - lo + 1
 	if w == x.w {
 		return x
@@ -434,8 +688,16 @@ func (c *TermCtx) Extract(x *Term, hi, lo int) *Term {
 		}
 	case opExtract:
 		return c.Extract(x.args[0], hi+x.b, lo+x.b)
+	case opBAnd, opBOr, opBXor:
+		if x.args[0].op == opConst || x.args[1].op == opConst {
+			return c.Bin(x.op, c.Extract(x.args[0], hi, lo), c.Extract(x.args[1], hi, lo))
+		}
 	}
-	return c.intern(&Term{op: opExtract, args: []*Term{x}, w: w, a: hi, b: lo})
+	t := c.intern(&Term{op: opExtract, args: []*Term{x}, w: w, a: hi, b: lo})
+	if w <= 64 && t.ko|t.kz == mask(w) {
+		return c.BV(w, t.ko)
+	}
+	return t
 }
 
 func (c *TermCtx) Concat(x, y *Term) *Term {
